@@ -216,6 +216,18 @@ def run_file(res, judge, tracker, fp, name, data, path, rng, tier, full_lines=Tr
         for fl in ((flag,) if flag is not None else flags):
             res.count("io_faults")
             attempt("io", k, "bytesio", lambda k=k: faults.FaultyBytesIO(data, fail_at=k), fl)
+    # interruptions that are not Exception subclasses, at sampled call indices
+    for k in sorted(set([0, 1, K // 2, K - 1] + [rng.randrange(K) for _ in range(4 if tier == "quick" else 40)])):
+        if k < 0:
+            continue
+        res.count("io_faults")
+        res.count("non_exception_faults")
+
+        def mk(k=k):
+            f = faults.FaultyBytesIO(data, fail_at=k)
+            f.fail_with = faults.InjectedInterrupt
+            return f
+        attempt("io-interrupt", k, "bytesio", mk, flags[k % 2])
     # path sources: the library opens the file itself; the patched open hands out a faulty real file
     path_points = range(K) if tier == "thorough" else sorted(set([0, 1, 2, K - 1, K // 2] + [rng.randrange(K) for _ in range(6)]))
     for k in path_points:
@@ -340,6 +352,51 @@ def every_event(res, judge, fp, name, data):
             res.violation("C18:strictness:final:every-event", f"fault at event {k} of {name}: flag {flag!r} -> {after!r}", case)
 
 
+def fifo_loads(res, judge, tracker, tdir, data, rng):
+    """Load BY PATH where the path is a named pipe (non-seekable).  Whatever the library does with it, the file it
+    opened itself must be closed and the flag restored when the call comes back."""
+    import threading
+    import rv.errors as errors
+    for i, flag in enumerate((True, False, True)):
+        fifo = os.path.join(tdir, f"pipe{i}.sunvox")
+        os.mkfifo(fifo)
+
+        def writer():
+            try:
+                with open(fifo, "wb") as w:
+                    w.write(data)
+            except OSError:
+                pass
+        th = threading.Thread(target=writer, daemon=True)
+        th.start()
+        case = {"file": "fifo", "fault": "non-seekable-path", "point": i, "source": "path", "initial_flag": flag}
+        judge.case = case
+        res.case(("fifo", i, flag))
+        res.count("loads")
+        res.count("fifo_loads")
+        errors.RAISE_CONTROLLER_VALUE_ERRORS = flag
+        raised = None
+        try:
+            judge.wrapped(Path(fifo) if i % 2 else fifo)
+        except Exception as e:
+            raised = e
+        th.join(timeout=5)
+        after = errors.RAISE_CONTROLLER_VALUE_ERRORS
+        errors.RAISE_CONTROLLER_VALUE_ERRORS = True
+        res.count("loads_raised" if raised is not None else "loads_completed")
+        if after is not flag:
+            res.violation("C18:strictness:final:fifo", f"flag {flag!r} -> {after!r} after loading from a named pipe", case)
+        for f in tracker.take():
+            res.count("files_opened")
+            res.count("files_closed_checked")
+            if not f.closed:
+                res.violation(f"C18:file-left-open:fifo:{'raise' if raised is not None else 'return'}",
+                              "the file the library opened from a named-pipe path is still open after the call", case)
+                f.armed = False
+                f.close()
+        os.unlink(fifo)
+
+
 def clone_faults(res, judge, fp, name, data, rng, tier):
     """clone() (Project / Synth / Module) is a save followed by a load: the same guarantees hold when a fault
     strikes anywhere inside it.  The load inside clone() goes through the wrapped read_sunvox_file."""
@@ -426,6 +483,9 @@ def run_shard(spec_, res):
                     if tier == "thorough" and name in FULL_EVENT_FILES:
                         every_event(res, judge, fp, name, data)
                     res.count("files")
+                if spec_["shard"] == 0:
+                    import rv.api as api
+                    fifo_loads(res, judge, tracker, tdir, api.Synth(api.m.Amplifier()).read(), rng)
             gc.collect()
             rw = [w for w in wlist if issubclass(w.category, ResourceWarning)]
             res.count("resource_warnings", len(rw))
